@@ -569,6 +569,9 @@ def buffers_rule(ctx, facts, cfg):
                     if not calls:
                         continue
                     tcall = calls[0][2]
+                    # a mandatory buffer that merely travels through an Option (helper(..).unwrap_or_default()) is not an optional argument
+                    if not s['place']['proj'] and _only_unwrapped(f, s['place']['local']):
+                        continue
                     pl = F.op_local(tcall['args'][0])
                     ll = F.op_local(tcall['args'][1])
                     pr = F.roots(f, defs, tcall['args'][0])
@@ -589,6 +592,44 @@ def buffers_rule(ctx, facts, cfg):
                                       % ('the pointer for NULL' if not null_ok else 'the length for 0'), site=s['at'], config=cfg)
     if n_raw < 2:
         ctx.violation(rid, '<floor>', 'from_raw_parts_mut sites', 'found %d from_raw_parts_mut sites in c_abi, expected 2 (rr_ip V4/V6)' % n_raw, kind='below-floor')
+
+
+OPTION_CONSUMERS = ('Option::<T>::unwrap_or_default', 'Option::<T>::unwrap_or', 'Option::<T>::unwrap', 'Option::<T>::expect', 'Option::<T>::unwrap_or_else')
+
+
+def _only_unwrapped(f, local):
+    """is the Option held in `local` (followed through plain copies / moves) handed to nothing but calls that take the slice out of it
+    again with a fixed default (unwrap_or_default() and friends)?  Then None and Some(empty) are not told apart by anyone."""
+    held = {local}
+    changed = True
+    while changed:
+        changed = False
+        for bi, b in F.blocks(f):
+            for st in b['stmts']:
+                if st['k'] == 'assign' and st['rv']['k'] == 'use' and st['rv']['x'].get('k') in ('copy', 'move') and not st['rv']['x']['place']['proj'] \
+                        and st['rv']['x']['place']['local'] in held and not st['place']['proj'] and st['place']['local'] not in held:
+                    held.add(st['place']['local'])
+                    changed = True
+    uses = 0
+    for bi, b in F.blocks(f):
+        t = b['term']
+        if t['k'] == 'call':
+            for a in t['args']:
+                if a.get('k') in ('copy', 'move') and a['place']['local'] in held:
+                    if not a['place']['proj'] and (F.call_path(t) or '').endswith(OPTION_CONSUMERS):
+                        uses += 1
+                    else:
+                        return False
+        if t['k'] == 'switch' and t['discr'].get('k') in ('copy', 'move') and t['discr']['place']['local'] in held:
+            return False
+        for st in b['stmts']:
+            if st['k'] == 'assign' and st['rv']['k'] == 'discr' and st['rv']['place']['local'] in held:
+                return False
+            if st['k'] == 'assign' and st['rv']['k'] in ('ref',) and st['rv']['place']['local'] in held:
+                return False
+            if st['k'] == 'assign' and st['rv']['k'] == 'use' and st['rv']['x'].get('k') in ('copy', 'move') and st['rv']['x']['place']['local'] in held and st['rv']['x']['place']['proj']:
+                return False
+    return uses > 0
 
 
 class ErrAu(Automaton):
